@@ -57,7 +57,13 @@ def corpus():
         g.T0, c3.token(), g.hx(b"A1__\n"), g.hx(b"B2__\n"), g.hx(b"C3__\n"), k, g.hx(b"D4__\n"), g.hx(b"E5__\n"), c3a.token(), g.hx(b"F6__\n"))
         for c3, c3a in [(g.Cfg(crit="s6", naming=nm, cleanup=cl), g.Cfg(crit="s6", naming=nm, cleanup=cl, append=ap))
                         for nm in ("num", "numd", "tsd") for cl in ("g3", "b0.3") for ap in (False, True)]
-        for k in range(2, 9)]
+        for k in range(2, 9)] + [
+        # a configured symlink with a direct naming: kills around the replacement of the link at a rotation, restart with append
+        "flw %d 0 ; B:%s W:%s W:%s KI:%d W:%s W:%s CR SN B:%s W:%s F SN S SN" % (
+        g.T0, cl.token(), g.hx(b"A1__\n"), g.hx(b"B2__\n"), k, g.hx(b"C3__\n"), g.hx(b"D4__\n"), cla.token(), g.hx(b"E5__\n"))
+        for cl, cla in [(g.Cfg(crit="s6", naming=nm, link=True), g.Cfg(crit=c2, naming=nm, link=True, append=ap))
+                        for nm in ("numd", "tsd", "num") for ap in (True, False) for c2 in ("s6", "s40")]
+        for k in range(0, 8)]
 
 
 def generate(rng, tier):
